@@ -266,6 +266,7 @@ def c20(ctx):
     for v in viols:
         v["sig"] = c20_sig(v)
     M.classify(ctx, viols + bad)
+    M.classify(ctx, race_run(ctx))      # the table's container at full speed under the real scheduler (family race)
     scns = [e["scn"] for e in evs if e["e"] == "reset"]
     ctx.samples = [{"tlc_behaviour": behs[0] if behs else None}, sample_trace(evs, scns[0], 8), sample_trace(levs, levs[0]["scn"], 14)]
     ctx.assumptions = ["Map.Len/Keys/Values/Range are excluded from concurrent histories (sync.Map's Range is documented not to be a snapshot); they are checked sequentially",
